@@ -1,3 +1,4 @@
+#![cfg_attr(target_pointer_width = "32", allow(arithmetic_overflow))] // 2^32-sized probes exist only in the 64-bit stages
 //! C10 — sample<->frame slice views are lossless, in-place and total; slice ops are safe.
 //!
 //! Oracle: direct indexing (frame i, channel c == sample i*N+c), pointer and length identity,
